@@ -700,6 +700,12 @@ func runCase(w *tr.Writer, seed uint64, idx int, focus string) {
 					h.op(ci, tr.L("async", "write", tr.I(ci.mcid), tr.X(data), "1"))
 					ci.c.AsyncWrite(data, h.acb("write", ci, true, data))
 				}
+				// behind that backlog: a vectored write followed by a plain one, still in issue order
+				va, vb := []byte("vectored-A "), []byte("plain-B ")
+				h.op(ci, tr.L("async", "writev", tr.I(ci.mcid), "1", tr.X(va[:4]), tr.X(va[4:])))
+				ci.c.AsyncWritev([][]byte{va[:4], va[4:]}, h.acb("writev", ci, true, va))
+				h.op(ci, tr.L("async", "write", tr.I(ci.mcid), tr.X(vb), "1"))
+				ci.c.AsyncWrite(vb, h.acb("write", ci, true, vb))
 				close(h.release)
 				quiet()
 				for round := 0; round < 50; round++ {
